@@ -122,6 +122,9 @@ def run(ctx):
 
 def replay(ctx, path):
     r = json.load(open(path))
+    if "programs" not in r:
+        import sys
+        return common.replay_by_rerun(ctx, path, sys.modules[__name__])
     if r.get("kind") == "task":
         ev, left = taskharness.run_real(r["task"])
         print(ev, left)
